@@ -346,9 +346,18 @@ def run_shard(shard):
             "transformed": lambda: D.Transformed(D.Normal(jnp.zeros(3), jnp.ones(3)), B.Chain([B.Affine(jnp.ones(3), jnp.full((3,), 2.0)), B.Permute(jnp.array([2, 0, 1])),
                                                                                                 B.TriangularAffine(jnp.zeros(3), jnp.eye(3) + 0.2)])),
         }
+        # models holding NumPy float leaves (put there with eqx.tree_at - equinox treats them as parameters like jax arrays)
+        Z["normal_numpy_loc"] = lambda: eqx.tree_at(lambda m: m.bijection.loc, D.Normal(jnp.arange(3.0), jnp.array([0.5, 1.0, 2.0])), np.array([0.3, -1.0, 2.0]))
+        Z["transformed_numpy_leaf"] = lambda: eqx.tree_at(lambda m: m.bijection.bijections[0].loc, Z["transformed"](), np.array([1.0, 0.5, -0.5]))
         if env.shim_ok():
             Z["triangular_spline"] = lambda: F.triangular_spline_flow(ks[3], base_dist=D.StandardNormal((2,)), flow_layers=2, knots=3)
         return Z
+
+    def unmarked_after_non_trainable(tree):
+        """inexact array leaves (jax or NumPy) of non_trainable(tree) that are not inside a NonTrainable node"""
+        is_nt = lambda n: isinstance(n, W.NonTrainable)
+        return [jax.tree_util.keystr(pth) for pth, leaf in jax.tree_util.tree_flatten_with_path(W.non_trainable(tree), is_leaf=is_nt)[0]
+                if not is_nt(leaf) and eqx.is_inexact_array(leaf)]
 
     def freeze_random(model, r):
         """Freeze a random subset: non_trainable on random subtrees and NonTrainable(tree) around one subtree."""
@@ -363,6 +372,10 @@ def run_shard(shard):
             where_opts += [lambda m: m.bijection.loc, lambda m: m.bijection.scale]
         mode = r.choice(["subtree_non_trainable", "subtree_NonTrainable", "random_leaves", "all"])
         if mode == "all":
+            rec.count("non_trainable_marking_checks")
+            um = unmarked_after_non_trainable(model)
+            if um:
+                v("non_trainable.unmarked_leaf", f"non_trainable(model) left the floating-point array leaves {um[:4]} outside any NonTrainable wrapper", {"origin": "training", "mode": "all"})
             return W.non_trainable(model), mode
         if mode == "random_leaves" or not where_opts:
             p, st = partition_trainable(model)
@@ -376,6 +389,10 @@ def run_shard(shard):
             return eqx.combine(jax.tree_util.tree_unflatten(td, new), st, is_leaf=lambda n: isinstance(n, W.NonTrainable)), mode
         w = where_opts[int(r.integers(0, len(where_opts)))]
         if mode == "subtree_non_trainable":
+            rec.count("non_trainable_marking_checks")
+            um = unmarked_after_non_trainable(w(model))
+            if um:
+                v("non_trainable.unmarked_leaf", f"non_trainable(subtree) left the floating-point array leaves {um[:4]} outside any NonTrainable wrapper", {"origin": "training", "mode": "subtree"})
             return eqx.tree_at(w, model, replace_fn=W.non_trainable), mode
         return eqx.tree_at(w, model, replace_fn=W.NonTrainable), mode
 
